@@ -560,3 +560,16 @@ Lemma inflight_absent_unfixed :
   /\ inflight_fast 512 524288 None wjob = Some 0
   /\ inflight_truth 512 524288 wjob = Some 0.
 Proof. repeat split; vm_compute; reflexivity. Qed.
+
+(* Why QInflight is outside [full_sidecar_transparent]: the inflight scan is ONE bounded scan whose
+   answer is the content of its window; an unparsable line of another length just outside the
+   window of a faithful sidecar shifts the window relative to the one over the rebuilt sidecar. *)
+Definition wjob3 : log := [wf0; {| fseq := 1; flen := 8; fb := BJobSpawned 0 true |}; {| fseq := 2; flen := 8; fb := BOther |}].
+Definition wshift : sfile := Some [LBad 1000; LGood {| fseq := 2; flen := 8; fb := BOther |}].
+Lemma inflight_window_shift :
+  valid_log wjob3 = true /\ FullFaithful wjob3 wshift
+  /\ inflight_fast 512 20 wshift wjob3 = None /\ inflight_truth 512 20 wjob3 = Some 0.
+Proof.
+  split; [reflexivity|]. split; [exists [wf0; {| fseq := 1; flen := 8; fb := BJobSpawned 0 true |}]; vm_compute; reflexivity|].
+  split; vm_compute; reflexivity.
+Qed.
